@@ -278,3 +278,64 @@ func VerifC09Cluster() {
 	}
 	verifrt.Reach("end")
 }
+
+// VerifC09Many: datasets with many partitions per node (17, 33), where code that
+// splits, chunks or caps per-node work would show. Scores are concrete and
+// distinct (partition i answers one item with score P-i), placements are one or
+// two nodes; one schedule. Every partition must be consulted exactly once and
+// the answer must be the k best of all P items in ascending order.
+func VerifC09Many() {
+	verifrt.SchedDeterministic(true)
+	P := 17
+	if verifrt.Choose("partitions", 2) == 1 {
+		P = 33
+	}
+	twoNodes := verifrt.Choose("nodes", 2) == 1
+	const local = uint64(1)
+	placement := make([][]uint64, P)
+	for i := range placement {
+		placement[i] = []uint64{101}
+		if twoNodes && i == 0 {
+			placement[i] = []uint64{102}
+		}
+	}
+	ds := verifDataset(local, 1, placement)
+	score := map[string]float32{}
+	for i, p := range ds.partitions {
+		score[string(p.id.Bytes())] = float32(P - i)
+	}
+	asked := map[string]int{}
+	for _, node := range []uint64{101, 102} {
+		c := &verifSearchClient{node: node}
+		c.answer = func(req *pb.SearchPartitionsRequest) ([]*pb.SearchResultItem, int) {
+			var items []*pb.SearchResultItem
+			for _, pid := range req.GetPartitionIds() {
+				verifrt.HarnessLock()
+				asked[string(pid)]++
+				verifrt.HarnessUnlock()
+				items = append(items, &pb.SearchResultItem{Id: pid, Score: score[string(pid)]})
+			}
+			return items, -1
+		}
+		ds.searchClients[node] = c
+	}
+	k := 3
+	if verifrt.Choose("k", 2) == 1 {
+		k = P
+	}
+	res, err := ds.Search(context.Background(), []float32{0}, uint(k))
+	verifrt.Quiesce()
+	verifrt.Assert(err == nil, "healthy-search-succeeds")
+	if err != nil {
+		return
+	}
+	for _, p := range ds.partitions {
+		verifrt.Assert(asked[string(p.id.Bytes())] == 1, "every-partition-consulted-exactly-once")
+	}
+	verifrt.Assert(len(res) == k, "exactly-k-of-the-union")
+	for j := range res {
+		// the k best scores of P, P-1, ..., 1 are 1, 2, ..., k
+		verifrt.Assert(res[j].Score == float32(j+1), "result-is-the-k-best-of-the-union-in-order")
+	}
+	verifrt.Reach("many-end")
+}
